@@ -123,7 +123,7 @@ pub const MULTI_EMPTY_FILE: &str = "C10-multi-empty-file-after-refused-offer";
 fn value_profile() -> BoxedStrategy<(&'static str, usize, BoxedStrategy<usize>)> {
     prop_oneof![
         // a few hundred bytes per entry: files of 4..20 entries at the smallest target size
-        5 => Just(("mixed", 20usize, prop_oneof![3 => 0usize..11, 3 => 150usize..260, 3 => 700usize..1000, 1 => 2000usize..2600].boxed())),
+        5 => Just(("mixed", 25usize, prop_oneof![3 => 0usize..11, 3 => 150usize..260, 3 => 700usize..1000, 1 => 2000usize..2600].boxed())),
         // everything tiny: the table is smaller than any target size
         1 => Just(("tiny", 20usize, (0usize..11).boxed())),
         // every value alone exceeds the smallest target size: every put is its own file
@@ -151,11 +151,11 @@ impl Property for MultiRoundTrip {
         "multi-builder-roundtrip".into()
     }
     fn cases(&self, tier: Tier) -> u64 {
-        tier.pick(1_500, 30_000)
+        tier.pick(2_000, 40_000)
     }
     fn strategy(&self, _: &Ctx) -> BoxedStrategy<MultiCase> {
         value_profile()
-            .prop_flat_map(|(_, keys, lens)| tables::table_sized(keys, 5, lens))
+            .prop_flat_map(|(_, keys, lens)| tables::table_sized(keys, 6, lens))
             .prop_flat_map(|t| {
                 let universe = gens::universe(t.family, 30);
                 let ts = prop_oneof![2 => 0u64..45, 1 => Just(u64::MAX), 1 => Just(0u64), 1 => any::<u64>()];
@@ -226,6 +226,8 @@ fn run_multi(ctx: &Ctx, c: &MultiCase, dir: &std::path::Path, o: &mut Outcome) -
         o.label("valid-input-only");
     }
     let mut refused_keys: Vec<Vec<u8>> = vec![];
+    // a refused offer opened a file and nothing has been accepted since: the open file is empty
+    let mut fresh_file_is_empty = false;
     for i in 0..=entries.len() {
         for _ in hints.iter().filter(|p| **p == i) {
             let before = mb.approximate_size();
@@ -237,13 +239,13 @@ fn run_multi(ctx: &Ctx, c: &MultiCase, dir: &std::path::Path, o: &mut Outcome) -
         for (_, kind, flip) in injections.iter().filter(|(p, _, _)| *p == i) {
             let last = if i > 0 { Some(&entries[i - 1]) } else { None };
             let Some(bad) = bad_offer(kind, *flip, last) else { continue };
-            // Does this offer open a new file?  Evaluated on the state before the call: no file is
-            // open (nothing accepted yet, or a split hint closed it), or the open file has reached
-            // its target size.
+            // Would this offer be the first entry of a file?  Evaluated on the state before the
+            // call: no file is open (nothing accepted yet, or a split hint closed it), the open
+            // file has reached its target size, or an earlier refused offer opened the file.
             let open = mb.approximate_size();
-            let opens_file = open == 0 || open >= target;
+            let opens_file = open == 0 || open >= target || fresh_file_is_empty;
             if opens_file {
-                o.label(format!("invalid-offer-opens-a-file:{}", if open >= target { "after-roll" } else if i == 0 { "first-offer" } else { "after-split-hint" }));
+                o.label(format!("invalid-offer-opens-a-file:{}", if open >= target { "after-roll" } else if fresh_file_is_empty { "after-refused-offer" } else if i == 0 { "first-offer" } else { "after-split-hint" }));
             }
             if !ctx.strict {
                 if bad.order && opens_file {
@@ -269,6 +271,7 @@ fn run_multi(ctx: &Ctx, c: &MultiCase, dir: &std::path::Path, o: &mut Outcome) -
                 }
                 Err(e) => {
                     o.label(format!("rejected:{kind:?}"));
+                    fresh_file_is_empty = opens_file;
                     if sst::error_code(&e) != Some(bad.want) {
                         return err(format!("multi:wrong-code:{kind:?}"), format!("expected error code {}, got {:?}", bad.want, sst::error_code(&e)));
                     }
@@ -285,6 +288,7 @@ fn run_multi(ctx: &Ctx, c: &MultiCase, dir: &std::path::Path, o: &mut Outcome) -
             if let Err(e) = res {
                 return err("multi:valid-refused", format!("valid entry #{i} was refused: {e:?}"));
             }
+            fresh_file_is_empty = false;
         }
     }
     let paths = mb.seal().map_err(|e| ("multi:seal-error".to_string(), format!("{e:?}")))?;
